@@ -36,7 +36,7 @@ T1_FUNCS = [("eventual.c", f) for f in [
     ("arch/abtd_futex.c", "ABTD_futex_wait_and_unlock"), ("arch/abtd_futex.c", "ABTD_futex_broadcast")]
 
 SOURCES = ["sc_evfut.c"]
-SIZES = {"quick": (36, 3), "thorough": (240, 8), "search": (160, 6)}
+SIZES = {"quick": (36, 3), "thorough": (240, 8), "search": (260, 6)}
 
 
 def _keys(model, pairs):
@@ -65,7 +65,7 @@ UNREACHABLE_HERE = _keys("Eventual", {"acq0": ["waiting", "woken"], "acq1": ["wa
     "Future", {"acq0": ["waiting", "woken"], "acq1": ["waiting", "woken"], "rel": ["reW", "reR"]})
 
 
-def scenario_params(rng):
+def scenario_params(rng, search=False):
     """One program.  Dimensions: object kind and size (buffer bytes / compartments incl. 0 and 1), callers of the three
     kinds, surplus sets, waiters / testers (lock-free future testers may poll until ready), phases separated by a reset,
     a reset concurrent with the sets of a phase (y&4), and who frees the object and when (main at the end, or
@@ -74,7 +74,8 @@ def scenario_params(rng):
     phases = 1 + rng.below(3)
     ext = 10 * rng.below(6)
     task = 10 * rng.below(5)
-    special = [0, 0, 0, 4, 8][rng.below(5)]
+    # the failing-input search spends more of its programs on the concurrent-reset and wait-then-free dimensions
+    special = ([0, 4, 8, 4, 8] if search else [0, 0, 0, 4, 8])[rng.below(5)]
     if special:
         nes = 2 + rng.below(2)
     if rng.below(2) == 0:
@@ -104,7 +105,8 @@ def run(res, tier, broken):
         broken.append({"kind": "T1-skeleton", **b})
     res.notes.append("num_compartments = 0: callback never runs while waiters return (documented API behaviour; differs from "
                      "the literal property text) — see Props.C09.fut_zero_compartments")
-    vs.campaign(res, broken, tier, "C09", "sc_evfut", SOURCES, scenario_params, validate, sizes=SIZES)
+    vs.campaign(res, broken, tier, "C09", "sc_evfut", SOURCES, lambda rng: scenario_params(rng, search=bool(broken)), validate,
+                sizes=SIZES)
     seen = set(res.cov.get("model_transitions", []))
     res.add_cov(model_transitions_total=len(ALL_TRANSITIONS),
                 model_transitions_uncovered=sorted(ALL_TRANSITIONS - seen - UNREACHABLE_HERE),
